@@ -100,11 +100,35 @@ Theorem C19_vars_too_few : forall (V : Type) names (v : V) values, (List.length 
 Proof. exact vars_too_few. Qed.
 Print Assumptions C19_vars_too_few.
 
-(* ---- WithInputIter: one value per call, in order, then "break" *)
-Theorem C19_input_in_order : forall (V : Type) n (it : list V),
-  input_calls V n it = map (InputValue V) (firstn n it) ++ repeat (InputBreak V) (n - List.length it).
+(* ---- WithInputIter: one iterator item per call, in order — a value, or an error value as a (catchable)
+   error of that call; an error item does not affect later calls; after the end "break" for ever *)
+Theorem C19_input_in_order : forall (V : Type) n (it : list (input_item V)),
+  input_calls V n it = map (result_of_item V) (firstn n it) ++ repeat (InputBreak V) (n - List.length it).
 Proof. exact input_in_order. Qed.
 Print Assumptions C19_input_in_order.
+
+Theorem C19_input_after_error : forall (V : Type) (e : V) before after n,
+  input_calls V (List.length before + 1 + n) (before ++ ItErr V e :: after)
+  = map (result_of_item V) before ++ InputError V e :: input_calls V n after.
+Proof. exact input_after_error. Qed.
+Print Assumptions C19_input_after_error.
+
+(* ---- native call: argument i of the call site is xs[i] of the Go callback (compileCallInternal pushes the
+   argument values last-to-first, opcall pops them first-to-last); with generator arguments the last
+   argument is the outermost loop (enum_args).  This is the argument-order part of "native as def". *)
+Theorem C19_opcall_args_in_order : forall (V : Type) (x : V) args rest,
+  opcall_pop V (List.length args) (x :: push_in_code_order V args rest) = Some (x, args, rest).
+Proof. exact opcall_args_in_order. Qed.
+Print Assumptions C19_opcall_args_in_order.
+
+Theorem C19_enum_args_components : forall (V : Type) gens v,
+  In v (enum_args V gens) -> Forall2 (fun a g => In a g) v gens.
+Proof. exact enum_args_components. Qed.
+Print Assumptions C19_enum_args_components.
+
+Example C19_enum_args_order :
+  enum_args N [[1; 2]; [10]; [100; 200]] = [[1; 10; 100]; [2; 10; 100]; [1; 10; 200]; [2; 10; 200]].
+Proof. reflexivity. Qed.
 
 (* ---- WithFunction / WithIterFunction arity masks, for ALL registration sequences that do not panic
    (apply_opts = Some _ entails 0 <= min <= max <= 30 for each): name/cnt is accepted iff some registration
